@@ -170,7 +170,11 @@ func parseAssignments(rhs []ast.Expr, pkg *packages.Package, out *Contract) {
 func resolveBindTarget(arg ast.Expr, pkg *types.Info) types.Type {
 	switch arg := arg.(type) {
 	case *ast.Ident: // c.Bind(pointer)
-		return resolveVarType(arg, pkg)
+		ty := resolveVarType(arg, pkg)
+		if ptr, isPointer := ty.(*types.Pointer); isPointer {
+			return ptr.Elem() // the input type is the pointed one
+		}
+		return ty
 	case *ast.UnaryExpr: // c.Bind(&value)
 		if ident, ok := arg.X.(*ast.Ident); arg.Op == token.AND && ok {
 			return resolveVarType(ident, pkg)
